@@ -293,8 +293,7 @@ theorem readEntity_progress (s : List Item) :
       | ok y =>
         obtain ⟨e, r'⟩ := y
         rw [he] at h1; simp only [Res.rest] at h1
-        simp only
-        split <;> simp only <;> omega
+        by_cases hu : e.uids.isEmpty = true <;> simp [hu] <;> omega
     | eUnsup => simp only; omega
     | eStruct => simp only; omega
     | skip => exact (next_not_skip hn).elim
